@@ -288,14 +288,28 @@ def observe_lock_ops(ctx, exe):
             w = m0.group(1) in ('write', 'try_write')
             fn = m1.group(1).split('::')[-1] if m1 else '?'
             ids = by_fn.get((fn, w), set())
-            events.append(('A', w, sorted(ids)[0] if len(ids) == 1 else 'called from %s' % (m1.group(1) if m1 else '?')))
+            events.append(('A', w, sorted(ids)[0] if len(ids) == 1 else ('?', m0.group(2), 'called from %s' % (m1.group(1) if m1 else '?'), sorted(ids))))
         else:
             m0 = re.search(r'drop_in_place<std::sync::(?:poison::)?rwlock::RwLock(Read|Write)Guard<(.*)>>::h[0-9a-f]+', chunk)
             if not m0:
                 continue
             toks = tuple(syncsites2coq.type_tokens(m0.group(2)))
             events.append(('R', m0.group(1) == 'Write', by_type.get(toks, 'guard of %s' % m0.group(2))))
-    return events, None
+    # a function with several acquisitions: the instance of RwLock<T>::read / write (one per receiver type T) tells which one it was,
+    # learnt from the acquisitions whose calling function has only one
+    inst = {}
+    for chunk, evn in zip([c for c in re.split(r'@@(?=ACQ|DROP)', body)[1:] if c.startswith('ACQ') and re.search(r'RwLock<T>::', c)], [e for e in events if e[0] == 'A']):
+        m0 = re.search(r'RwLock<T>::(?:read|write|try_read|try_write)::h([0-9a-f]+)', chunk)
+        if m0 and isinstance(evn[2], int):
+            inst.setdefault(m0.group(1), set()).add(evn[2])
+    fixed = []
+    for e in events:
+        if e[0] == 'A' and isinstance(e[2], tuple):
+            cand = inst.get(e[2][1], set()) & set(e[2][3]) if e[2][3] else inst.get(e[2][1], set())
+            fixed.append(('A', e[1], sorted(cand)[0] if len(cand) == 1 else e[2][2]))
+        else:
+            fixed.append(e)
+    return fixed, None
 
 
 def lock_observation(ctx, exe):
@@ -323,7 +337,23 @@ def lock_observation(ctx, exe):
         ctx.nontrivial.add('lock-observation')
     path_ids = sorted(set(l for w, l in INVENTORY['call_path']))
     missing = [names.get(i, i) for i in path_ids if i not in acquired]
-    if got != want or missing:
+    # what the theorems need of the observed program: every acquisition is one the inventory lists (kind and receiver), in the order of the
+    # regenerated call path, and every guard is released (C20_inv_* then speak about THIS program: all_from_inv, xall_well_bracketed).
+    # Where a guard is dropped may differ from what the scanner read off the braces (it cannot see moves of a guard): recorded, not a failure.
+    held, bracketed = {}, True
+    for o in got:
+        k = (o[1], o[2])
+        held[k] = held.get(k, 0) + (1 if o[0] == 'A' else -1)
+        bracketed = bracketed and held[k] >= 0
+    bracketed = bracketed and all(v == 0 for v in held.values())
+    same_acquisitions = [(o[1], o[2]) for o in got if o[0] == 'A'] == [(bool(w), l) for w, l in INVENTORY['call_path']]
+    covered = (same_acquisitions and bracketed and not missing and all(isinstance(o[2], int) for o in got)
+               and [o for o in got if o[0] == 'A'] == [o for o in want if o[0] == 'A'] and sorted(got) == sorted(want))
+    ctx.cov['lock_operations_observed'].update({'acquisitions_equal_call_path': same_acquisitions, 'every_guard_released': bracketed})
+    if got != want and covered:
+        ctx.notes.append('the running code drops a guard at another place than the scanner read off the brace structure (acquisitions, their kinds, receivers and order agree with the '
+                         'inventory and every guard is released: the observed program is a program of the inventory, C20_inv_* apply to it): observed %s; inventory %s' % (show(got)[:700], show(want)[:700]))
+    elif got != want or missing:
         ctx.corr_broken('the lock operations of one evaluation of a decision that requires a decision, observed in the running code, are not the program the regenerated '
                         'inventory describes (deep_ops 2 of coq/C20/Code.v)%s' % ('; receivers of the call path never acquired: %s' % missing if missing else ''),
                         {'model': 'decision outer requires decision inner requires input a; evaluate_invocable("outer", {a: 1})'}, show(got)[:1500], show(want)[:1500])
